@@ -313,7 +313,30 @@ def run(repo='/repo', tier='quick'):
                   'a loop path creates a decompressor without passing the response_decompression_layer_limit test', c['loc'])
         res.check(badlz is None, 'C07.e', key + ':lzma-limit', 'LZMA layers are bounded by response_lzma_layer_limit', 'an LZMA layer is created without the response_lzma_layer_limit test', c['loc'])
     res.check(inloop >= 1, 'C07.e', 'multi-coding-loop', 'multi-coding creations are inside the token loop', 'no decompressor creation inside the multi-coding loop', rh.loc)
-    # the layers counter is incremented exactly in the test
+    # the counters compared with the limits are loop-carried: initialised before the loop, only incremented inside it
+    loopbodies = [body for h, body in lps if any(b in body for b, i, c in creates)]
+    body = max(loopbodies, key=len) if loopbodies else set()
+    ncnt = 0
+    for bb in sorted(body):
+        cnd = rh.cond_of(bb)
+        if not cnd or not any(k in S(cnd[0]) for k in ('response_decompression_layer_limit', 'response_lzma_layer_limit')):
+            continue
+        a = P.canon(cnd[0])
+        if a is None or (a[2] if 'limit' in a[2] else a[0]) not in (lim, lz) or a[1] in ('==', '!='):
+            continue
+        for v in nodes(cnd[0], lambda y: y.get('k') == 'var' and y.get('decl') == 'local'):
+            ncnt += 1
+            resets = []
+            for b2 in body:
+                for s2 in rh.blocks[b2]['stmts']:
+                    for y in nodes(s2):
+                        if y['k'] == 'assign' and strip(y['l']).get('k') == 'var' and strip(y['l'])['name'] == v['name'] and y['op'] == '=':
+                            resets.append(y)
+                        if y['k'] == 'decl' and any(d_['name'] == v['name'] and d_.get('did') == v.get('did') for d_ in y['vars']):
+                            resets.append(y)
+            res.check(not resets, 'C07.e', 'limit-counter:%s:loop-carried' % v['name'], '%s is initialised before the token loop and only incremented inside it' % v['name'],
+                      'the counter %s that is compared with the layer limit is (re)initialised inside the token loop: it never exceeds the limit and every coding token gets its own decompressor' % v['name'], (resets[0].get('loc') if resets else cnd[0]['loc']))
+    res.floor('C07.e', 'limit counters in the token loop', ncnt, 2)
     res.assumptions += ['zlib and the LZMA SDK write at most avail_out bytes into the output buffer', 'fidelity (decompressed bytes == payload) is not decided']
     return res
 
